@@ -330,13 +330,13 @@ Qed.
 
 (* ---------- one build: independent of every order a hash-seeded or call-ordered container could impose ---------- *)
 Definition reorder (c : tx_case) (ins coll refs expl : list txin) : tx_case :=
-  mk_tx ins coll (t_dedup_flag c) refs expl (t_signers c) (t_mint c) (t_native c) (t_extra_datums c).
+  mk_tx ins coll (t_dedup_flag c) refs expl (t_signers c) (t_mint c) (t_native c) (t_plutus c) (t_wit_datums c) (t_extra_datums c).
 Theorem tx_build_order_independent c ins coll refs expl :
   Permutation (t_inputs c) ins -> Permutation (t_collateral c) coll ->
   Permutation (t_script_refs c) refs -> Permutation (t_explicit_refs c) expl ->
   tx_build (reorder c ins coll refs expl) = tx_build c.
 Proof.
-  intros Pi Pc Pr Pe. unfold tx_build, reorder. cbn [t_inputs t_collateral t_dedup_flag t_script_refs t_explicit_refs t_signers t_mint t_native t_extra_datums].
+  intros Pi Pc Pr Pe. unfold tx_build, reorder. cbn [t_inputs t_collateral t_dedup_flag t_script_refs t_explicit_refs t_signers t_mint t_native t_plutus t_wit_datums t_extra_datums].
   destruct (tin_set_spec (t_inputs c)) as (_ & _ & Hi). destruct (tin_set_spec (t_collateral c)) as (_ & _ & Hc).
   rewrite <- (Hi _ Pi), <- (Hc _ Pc).
   rewrite (ref_inputs_order_independent (t_dedup_flag c) _ _ _ _ _ _ (Permutation_refl _) (Permutation_sym Pr) (Permutation_sym Pe)).
@@ -344,23 +344,65 @@ Proof.
 Qed.
 (* what a build emits in its set-like fields *)
 Theorem tx_build_sets c o : tx_build c = Ok o ->
+  Forall (fun s => N.of_nat (length (ps_bytes s)) < two64) (t_plutus c) ->
   NoDup (x_inputs o) /\ NoDup (x_collateral o) /\ NoDup (x_refs o) /\ NoDup (x_signers o) /\
-  x_signers o = first_occ bytes_eqb (t_signers c) /\ NoDup (x_native o) /\ NoDup (x_data o).
+  x_signers o = first_occ bytes_eqb (t_signers c) /\ NoDup (x_native o) /\ NoDup (x_data o) /\
+  (forall k els, In (k, els) (x_plutus o) -> NoDup els) /\
+  (forall d, In d (t_wit_datums c ++ t_extra_datums c) -> In (d_emit d) (x_data o)).
 Proof.
   unfold tx_build. destruct (match t_mint c with Some h => _ | None => _ end) as [m| | |]; cbn [bind]; try discriminate.
-  intros [= <-]. cbn [x_inputs x_collateral x_refs x_signers x_native x_data].
+  intros [= <-] L. cbn [x_inputs x_collateral x_refs x_signers x_native x_data x_plutus].
+  set (h := [SetNative (t_native c); SetPlutus (dedup_clone pscript_eqb (t_plutus c));
+             SetData (mk_plist (dedup_clone datum_ord_eqb (t_wit_datums c) ++ t_extra_datums c) None)]).
+  assert (OK : Forall op_ok h).
+  { repeat constructor. cbn. try rewrite dedup_clone_spec by apply pscript_eqb_spec.
+    rewrite Forall_forall in *. intros x Hx. apply L. exact (proj1 (In_first_occ pscript_eqb pscript_eqb_spec _ _) Hx). }
+  pose proof (ws_setters_emit_once h OK) as EO.
   repeat split.
   - apply tin_set_spec.
   - apply tin_set_spec.
   - apply ref_inputs_spec.
   - apply (wf_from_vec bytes_eqb bytes_eqb_spec).
   - apply (items_from_vec bytes_eqb bytes_eqb_spec).
-  - unfold ws_run, ws_step. rewrite switch_is_repaired. cbn [fold_left ws_step_gen ws_new ws_native ws_vkeys ws_boot ws_plutus ws_data].
-    destruct (nonempty (t_native c)); destruct (nonempty (pl_elems _)); cbn [ws_native]; try constructor; apply dedup_clone_nodup, bytes_eqb_spec.
-  - unfold ws_run, ws_step. rewrite switch_is_repaired. cbn [fold_left ws_step_gen ws_new ws_native ws_vkeys ws_boot ws_plutus ws_data].
-    destruct (nonempty (t_native c)); destruct (nonempty (pl_elems _)); cbn [ws_data pl_elems plist_dedup_gen]; try constructor; apply datum_dedup_emits_once.
+  - destruct (ws_native (ws_run h)) as [l|] eqn:E; [|constructor].
+    destruct l as [|x l]; [constructor|]. apply (EO 1). unfold ws_fields. rewrite E. cbn [nonempty]. rewrite !in_app_iff. right. left. now left.
+  - destruct (ws_data (ws_run h)) as [p|] eqn:E; [|constructor].
+    destruct (pl_elems p) as [|x l] eqn:P; [constructor|]. rewrite <- P. apply (EO 4). unfold ws_fields. rewrite E, P. cbn [nonempty]. rewrite !in_app_iff. do 4 right. now left.
+  - intros k els I. apply filter_In in I. apply (EO k els), I.
+  - intros d Hd. subst h. unfold ws_run, ws_step. rewrite switch_is_repaired.
+    cbn [fold_left ws_step_gen ws_new ws_native ws_vkeys ws_boot ws_plutus ws_data pl_elems].
+    set (all := dedup_clone datum_ord_eqb (t_wit_datums c) ++ t_extra_datums c).
+    assert (IA : In (d_emit d) (map d_emit all)).
+    { (* de-duplication by the Ord key keeps, for every datum, an element with the same key, hence the same bytes *)
+      apply in_app_iff in Hd. unfold all. rewrite map_app, in_app_iff. destruct Hd as [Hd|Hd]; [left | right; now apply in_map].
+      clear - Hd. unfold dedup_clone.
+      assert (G : forall l (s : dset datum), (In (d_emit d) (map d_emit (items s)) \/ In d l) ->
+                  (forall x, In x (index s) -> In x (items s)) ->
+                  In (d_emit d) (map d_emit (items (fold_left (add_move datum_ord_eqb) l s)))).
+      { induction l as [|x l IH]; intros s [H|H] IX; cbn [fold_left]; try assumption; try destruct H.
+        - apply IH; [left | ].
+          + unfold add_move, add, index_insert. destruct (mem datum_ord_eqb x (index s)); cbn [fst items]; [assumption|].
+            rewrite map_app, in_app_iff. now left.
+          + unfold add_move, add, index_insert. destruct (mem datum_ord_eqb x (index s)); cbn [fst items index]; [assumption|].
+            intros y [<-|Hy]; rewrite in_app_iff; [right; now left | left; now apply IX].
+        - subst x. apply IH; [left | ].
+          + unfold add_move, add, index_insert. destruct (mem datum_ord_eqb d (index s)) eqn:M; cbn [fst items].
+            * unfold mem in M. apply existsb_exists in M. destruct M as [y [Hy E]]. apply IX in Hy.
+              assert (d_emit y = d_emit d) as <-; [|now apply in_map].
+              unfold datum_ord_eqb in E. apply andb_true_iff in E. destruct E as [E1 E2]. apply bytes_eqb_spec in E1.
+              unfold d_emit. destruct (d_orig d), (d_orig y); try discriminate; [apply bytes_eqb_spec in E2; now subst | now symmetry].
+            * rewrite map_app, in_app_iff. right. now left.
+          + unfold add_move, add, index_insert. destruct (mem datum_ord_eqb d (index s)); cbn [fst items index]; [assumption|].
+            intros y [<-|Hy]; rewrite in_app_iff; [right; now left | left; now apply IX].
+        - apply IH; [right; assumption|].
+          unfold add_move, add, index_insert. destruct (mem datum_ord_eqb x (index s)); cbn [fst items index]; [assumption|].
+          intros y [<-|Hy]; rewrite in_app_iff; [right; now left | left; now apply IX]. }
+      apply G; [now right | intros x []]. }
+    destruct (nonempty (t_native c)); destruct (nonempty (dedup_clone pscript_eqb (t_plutus c)));
+      (destruct (nonempty all) eqn:NE; [|destruct all; [destruct IA | discriminate]]);
+      cbn [ws_data pl_elems plist_dedup_gen]; change (datum_key_eqb_gen false) with datum_emit_eqb;
+      rewrite (proj1 (datum_dedup_emits_once all)); apply (In_first_occ bytes_eqb bytes_eqb_spec); exact IA.
 Qed.
-
 (* ---------- the judges accept the model's own observations (they are not contradictory) ---------- *)
 Lemma list_eqb_refl l : list_eqb l l = true.
 Proof. induction l as [|x l IH]; cbn; [reflexivity | now rewrite bytes_eqb_refl, IH]. Qed.
